@@ -190,7 +190,7 @@ fn run_case(seed: u64, i: u64, srv_l: &TcpListener, prx_l: &TcpListener) -> Stri
     let (r_res_tx, r_res_rx) = mpsc::channel::<String>();
     let assoc = ClientAssociationOptions::new()
         .with_abstract_syntax(A_VERIF)
-        .read_timeout(Duration::from_secs(8))
+        .read_timeout(Duration::from_secs(60))
         .establish_with(&format!("{}:{}", ip, prx_port));
     let a_up = a_up_rx.recv().unwrap_or(false);
     let assoc = match (assoc, a_up) {
@@ -215,7 +215,11 @@ fn run_case(seed: u64, i: u64, srv_l: &TcpListener, prx_l: &TcpListener) -> Stri
     // a PDU only counts as sent once the proxy has recorded it: a later close of the sender with
     // unread input (TCP reset) would otherwise race with the proxy's read (OS level, not modelled)
     let wait_recorded = |p: usize, want: usize| {
-        for k in 0..40000 {
+        let t0 = std::time::Instant::now();
+        for k in 0..u64::MAX {
+            if t0.elapsed() > Duration::from_millis(1500) {
+                return;
+            }
             if recs[p].lock().unwrap().len() >= want {
                 return;
             }
@@ -290,7 +294,7 @@ fn run_case(seed: u64, i: u64, srv_l: &TcpListener, prx_l: &TcpListener) -> Stri
         match cmd {
             None => {
                 // the blocked release() returns
-                let out = peers[p].rx.recv_timeout(Duration::from_secs(20)).unwrap_or_else(|_| "hang".into());
+                let out = peers[p].rx.recv_timeout(Duration::from_secs(90)).unwrap_or_else(|_| "hang".into());
                 peers[p].inbox.pop_front();
                 peers[p].st = St::Done;
                 events.push(format!("{}/recv/{}", peers[p].name, out));
@@ -309,7 +313,7 @@ fn run_case(seed: u64, i: u64, srv_l: &TcpListener, prx_l: &TcpListener) -> Stri
                     x => x,
                 };
                 let _ = peers[p].tx.send(c);
-                let out = peers[p].rx.recv_timeout(Duration::from_secs(20)).unwrap_or_else(|_| "hang".into());
+                let out = peers[p].rx.recv_timeout(Duration::from_secs(90)).unwrap_or_else(|_| "hang".into());
                 let name = match c {
                     Cmd::SendData(_) => "sendData",
                     Cmd::SendOther => "sendOther",
@@ -350,7 +354,7 @@ fn run_case(seed: u64, i: u64, srv_l: &TcpListener, prx_l: &TcpListener) -> Stri
                         if peers[p].st == St::Done {
                             // storescp-style loop: leaving drops the association
                             let _ = peers[p].tx.send(Cmd::Close);
-                            let _ = peers[p].rx.recv_timeout(Duration::from_secs(20));
+                            let _ = peers[p].rx.recv_timeout(Duration::from_secs(90));
                         }
                     }
                     Cmd::Release => {}
@@ -432,7 +436,7 @@ fn run_scp_case(seed: u64, i: u64, scp_port: u16, flavour: &str, prx_l: &TcpList
     });
     let assoc = ClientAssociationOptions::new()
         .with_abstract_syntax(A_VERIF)
-        .read_timeout(Duration::from_secs(8))
+        .read_timeout(Duration::from_secs(60))
         .establish_with(&format!("{}:{}", ip, prx_port));
     let mut assoc = match assoc {
         Ok(x) => Some(x),
